@@ -46,7 +46,7 @@ def call_input(k, n):
 class Config:
     def __init__(self, name, kind="functor", workers=1, quota=None, wq=1.0, rq=None, calls=(),
                  until_all_ready=False, fault=None, family=None, required=(), delayed_put=False,
-                 precreate=False, wid_offset=0):
+                 precreate=False, wid_offset=0, second_pool=False):
         self.name = name
         self.kind = kind                  # functor | factory
         self.workers = workers
@@ -58,6 +58,7 @@ class Config:
         self.fault = fault                # None | ("begin", worker index) | ("item", j)  j-th item seen overall
         self.family = family or name
         self.required = list(required)    # regexes on source lines that some execution must reach
+        self.second_pool = second_pool    # a second pool of the same class is alive and makes the odd-numbered calls
         self.wid_offset = wid_offset      # the pool has handed out this many worker ids before (long-lived pool)
         self.precreate = precreate        # all generators are created first, then consumed one after the other
         self.delayed_put = delayed_put    # explore late delivery of multiprocessing.Queue puts (needs an env budget)
@@ -66,7 +67,7 @@ class Config:
         return {"name": self.name, "pool": self.kind, "workers": self.workers, "quota": self.quota,
                 "work_queue_maxsize": self.wq, "results_queue_maxsize": self.rq, "calls": self.calls,
                 "until_all_ready": self.until_all_ready, "fault": self.fault, "delayed_put": self.delayed_put,
-                "precreate": self.precreate, "wid_offset": self.wid_offset}
+                "precreate": self.precreate, "wid_offset": self.wid_offset, "second_pool": self.second_pool}
 
 
 def make_driver(cfg):
@@ -117,10 +118,19 @@ def make_driver(cfg):
                 pass
             pool = Pool(cfg.workers, Factory(), work_queue_maxsize=cfg.wq, results_queue_maxsize=cfg.rq)
         out["pool"] = pool
+        pool2 = None
+        if cfg.second_pool:
+            # pools are independent objects: a second one, alive at the same time, serves every other call
+            if cfg.kind == "functor":
+                pool2 = Pool([W(cfg.quota if cfg.quota is not None else math.inf) for _ in range(cfg.workers)],
+                             work_queue_maxsize=cfg.wq, results_queue_maxsize=cfg.rq)
+            else:
+                pool2 = Pool(cfg.workers, Factory(), work_queue_maxsize=cfg.wq, results_queue_maxsize=cfg.rq)
         if cfg.wid_offset and hasattr(pool, "_wid_counter"):
             # as if many workers had been created (and replaced) on this pool before: ids beyond the small-int cache
             object.__setattr__(pool, "_wid_counter", object.__getattribute__(pool, "_wid_counter") + cfg.wid_offset)
-        with pool:
+        import contextlib
+        with pool, (pool2 if pool2 is not None else contextlib.nullcontext()):
             out["entered"] = True
             def wait_ready():
                 procs = list(object.__getattribute__(pool, "procs"))
@@ -144,7 +154,8 @@ def make_driver(cfg):
                 rec = {"mode": mode, "data": data, "cs": cs, "yielded": [], "finished": False, "leftover": None}
                 out["calls"].append(rec)
                 inp = vmp.LazyInput(data) if ikind == "lazy" else (iter(data) if ikind == "iter" else data)
-                gen = pre[k] if k in pre else (pool.imap(inp, cs) if mode == "imap" else pool.imap_unordered(inp, cs))
+                the_pool = pool2 if (pool2 is not None and k % 2 == 1) else pool
+                gen = pre[k] if k in pre else (the_pool.imap(inp, cs) if mode == "imap" else the_pool.imap_unordered(inp, cs))
                 if exact:
                     # the consumer takes exactly len(data) results (zip / islice style) and closes the generator at
                     # its last yield instead of driving it to StopIteration
@@ -523,7 +534,7 @@ def replay_pool(rec):
                  rq=c["results_queue_maxsize"], calls=[tuple(x) for x in c["calls"]],
                  until_all_ready=c["until_all_ready"], fault=tuple(c["fault"]) if c["fault"] else None,
                  delayed_put=c.get("delayed_put", False), precreate=c.get("precreate", False),
-                 wid_offset=c.get("wid_offset", 0))
+                 wid_offset=c.get("wid_offset", 0), second_pool=c.get("second_pool", False))
     pin_self()
     racy = {(tuple(a), b) for a, b in rp["racy"]}
     outs = []
